@@ -171,6 +171,8 @@ def main(run):
     registry_check(run, pkg)
     for n in ((2, 3, 4, 5, 6, 7) if run.tier == "quick" else (2, 3, 4, 5, 6, 7, 8)):
         bit_identity(run, n, (8 if n <= 5 else 3 if n == 6 else 2) if run.tier == "quick" else (40 if n <= 6 else 4))
+    from props.C04 import structure_check
+    structure_check(run, 10 if run.tier == "quick" else 11)          # the memoised table both cached computers read, per player count
     return run.finish(
         explanation="Relational obligation: both computers run on the same symbolic pre-state (every knowledge set, "
                     "independent stale rows, no class assumption) end in equal tables, per n; repeated invocation "
